@@ -179,6 +179,17 @@ def s3fifo(r, F):
     mx = any("MAX_FREQUENCY" in (c or "") for g in bodies for b in g.blocks for s in b.stmts if s.k == "assign" for o in s.rv.ops for c in [o.const_item() if o.is_const() else None]) or \
         any(o.is_const() and o.const_val() == 3 for g in bodies for b in g.blocks for t in [b.term] if t.k == "call" for o in t.args)
     r.require(sat and mx, inc, "S3-FIFO frequency saturates at MAX_FREQUENCY", "inc_frequency clamps", "the access frequency no longer saturates at MAX_FREQUENCY", ln=inc.lo)
+    # the step is exactly one: inc -> min(MAX, v + 1), dec -> v.saturating_sub(1)
+    from sa import affine as _aff
+    okstep = False
+    for g in F.descendants(inc):
+        for b in g.calls_to(r"cmp::min$|Ord::min$"):
+            forms = [_aff.affine(g, a, depth=1) for a in b.term.args if a.place is not None]
+            okstep = okstep or any(f_.get("1") == 1 and len([k for k in f_ if k != "1"]) == 1 and all(v == 1 for k, v in f_.items() if k != "1") for f_ in forms)
+    dec = F.method(EV + "::s3fifo::S3FifoState", "dec_frequency")
+    okdec = any(b.term.args[1].is_const() and b.term.args[1].const_val() == 1 for g in F.descendants(dec) for b in g.calls_to(r"::saturating_sub$"))
+    r.require(okstep and okdec, inc, "S3-FIFO frequency steps by one", "inc: min(MAX, v + 1); dec: v.saturating_sub(1)",
+              "S3FifoState::inc_frequency / dec_frequency do not move the frequency by exactly one (inc %s, dec %s): promotion from the small queue and re-insertion in main depend on it" % (okstep, okdec), ln=inc.lo)
 
 
 def sieve(r, F):
